@@ -572,12 +572,8 @@ def r5_block_list(ctx, sym):
     from ..fdeval import Obj
     mm_ = ctx.repo.module(MOCKED)
     rec = symexec.Recorder()
-    mocked_obj = Obj('mocked', ORIGINAL_BUILTINS={})
-    mocked_obj.attrs['__open__'] = True
-    def make(nm, *a, **k):
-        rec.events.append(('mocked.' + nm, a, k))
-        return Obj('mocked.%s(...)' % nm, made_by=nm, args=a)
-    mocked_obj.attrs['__unknown_method__'] = make
+    mocked_obj, make = symexec.module_stub(sym, mm_, 'mocked', symexec.MOCKED_ESTABLISHED, events=rec.events,
+                                           ORIGINAL_BUILTINS={})
 
     def b_getattr(o, nm, *default):
         if o is mocked_obj:
@@ -657,13 +653,23 @@ def r5_block_list(ctx, sym):
             ctx.check(okx, 'R5', q + ':raises:' + str(name), mm, r,
                       "refusal raises %s, which is not an Exception subclass (escapes the containing handlers or is "
                       "not raised at all)" % name, "a blocked call takes the grader down")
-    # the import refusal covers pedal and its submodules
+    # the import refusal covers pedal and its submodules (and nothing else), by execution
     ri = mm.func('create_import_function.<locals>._restricted_import')
-    first = [n for n in body_walk(ri) if isinstance(n, ast.If)][0]
-    t = norm(first.test)
-    ctx.check("== 'pedal'" in t and "startswith('pedal.')" in t and isinstance(first.body[0], ast.Raise),
-              'R5', '_restricted_import:pedal', mm, first, "import of pedal / pedal.* is not refused first",
-              "student code does `import pedal.core.report`")
+    for name, g, l, fromlist, level, outcome, real_calls, own_calls, result, student_module, _ in \
+            restricted_import_cells(ctx, sym):
+        is_pedal = name == 'pedal' or name.startswith('pedal.')
+        if is_pedal:
+            import builtins as _bb
+            kind = outcome[1] if outcome[0] == 'raises' else None
+            cls = getattr(_bb, kind, None) if isinstance(kind, str) else None
+            ok = outcome[0] == 'raises' and not real_calls and not own_calls and isinstance(cls, type) and \
+                issubclass(cls, Exception)
+            ctx.check(ok, 'R5', '_restricted_import:pedal[%s]' % name, mm, ri,
+                      "importing %s %s" % (name, 'raises %s' % kind if kind else 'is allowed (returns %r)' % (outcome[1],)),
+                      "student code does `import pedal.core.report`")
+        elif name != 'helper':
+            ctx.check(outcome[0] == 'returns', 'R5', '_restricted_import:allowed[%s]' % name, mm, ri,
+                      "importing %s is refused (%s)" % (name, outcome[1]), "`import %s` fails in the sandbox" % name)
     cm = mod.func('Sandbox.clear_mocks')
     d = cm.args.defaults
     ok = bool(d) and isinstance(d[-1], ast.Constant) and d[-1].value is True and \
@@ -674,6 +680,47 @@ def r5_block_list(ctx, sym):
     ctx.check(any(is_self_call(c, 'clear_mocks') and not c.args and not c.keywords for c in calls(init)),
               'R5', 'Sandbox.__init__:installs-defaults', mod, init,
               "a new Sandbox does not install the default block list", "a fresh sandbox blocks nothing")
+
+
+def restricted_import_cells(ctx, sym):
+    """The import replacement built by create_import_function, executed abstractly for module names x import forms;
+    yields (name, globals, locals, fromlist, level, outcome, calls of the real __import__, calls of sandbox._import)
+    where outcome is ('returns', value) or ('raises', kind)."""
+    from .. import symexec
+    from ..fdeval import Obj as _Obj, Raised, Inconclusive
+    mm = ctx.repo.module(MOCKED)
+    maker = mm.func('create_import_function')
+    ctx.analysed_function(mm, maker)
+    forms = [('json', ('tool',), 0), ('email', ('utils', 'message'), 0), ('os.path', (), 0), ('math', None, 0),
+             ('random', ('*',), 0), ('pedal', (), 0), ('pedal.core.report', ('MAIN_REPORT',), 0), ('pedalboard', (), 0),
+             ('pedals.kit', ('x',), 0), ('helper', (), 0), ('sibling', ('name',), 1)]
+    for name, fromlist, level in forms:
+        rec = symexec.Recorder()
+        result = _Obj('module-object')
+        real = rec.stub('__import__', fn=lambda *a, **k: result)
+        real._fd_callable = True
+        sandbox = _Obj('sandbox', threaded=False)
+        student_module = _Obj('student-module')
+        symexec.method(sandbox, '_import', rec.stub('_import', ret=student_module))
+        report = _Obj('report', submission=_Obj('submission', files={'helper.py': 'K = 1'}))
+        originals = {'__import__': real}
+        fd = symexec.new_fd(sym, mm, calls={'importlib.import_module': rec.stub('importlib.import_module', ret=result),
+                                            '__import__': real, 'importlib.__import__': real,
+                                            'builtins.__import__': real},
+                            extra={'ORIGINAL_BUILTINS': originals, 'sys.modules': {}})
+        closure, raised = symexec.run(fd, maker, [report, sandbox], what='create_import_function')
+        if raised is not None or not callable(closure):
+            raise AnalysisError("create_import_function does not return the import replacement (%r)" % (raised or closure,))
+        g, l = {'__name__': '__main__'}, {'local': 1}
+        args = [name, g, l] + ([] if fromlist is None else [fromlist, level])
+        try:
+            outcome = ('returns', closure(*args))
+        except Raised as e:
+            outcome = ('raises', e.kind)
+        except Inconclusive as e:
+            raise AnalysisError("_restricted_import is outside the decidable fragment: %s" % e)
+        yield name, g, l, fromlist, level, outcome, rec.named('__import__'), rec.named('_import'), result, \
+            student_module, rec.named('importlib.import_module')
 
 
 def r6_threads(ctx, sym):
